@@ -1,3 +1,3 @@
 """registry of translators"""
-import extract_ops, dump_tables, dump_encode
-ALL = [extract_ops.generate, dump_tables.generate, dump_encode.generate]
+import extract_ops, dump_tables, dump_encode, dump_techlib
+ALL = [extract_ops.generate, dump_tables.generate, dump_encode.generate, dump_techlib.generate]
